@@ -299,4 +299,101 @@ theorem handle_len (st : Store) (p : Peer) (num : Int) (op : Op) :
             constructor <;> omega
     | _ => exact same _ _ _
 
+/-! ### what one handler invocation hands to the writer -/
+
+theorem reject_eq_len {fast : Bool} {r : Req} {w w' : WEnv} {e : WR} {ms : List Msg}
+    (h : reject fast r w = (e, ms, w')) : ms.length ≤ 1 := by
+  rcases reject_cases fast r w with h1 | ⟨_, _, h1⟩ <;> rw [h] at h1 <;> simp only at h1 <;>
+    rw [h1] <;> simp
+
+theorem reject_len (fast : Bool) (r : Req) (w : WEnv) : (reject fast r w).2.1.length ≤ 1 := by
+  rcases reject_cases fast r w with h1 | ⟨_, _, h1⟩ <;> rw [h1] <;> simp
+
+theorem reject_eq_len' {fast : Bool} {r : Req} {w w' : WEnv} {e : WR} {ms : List Msg} (n : Nat)
+    (h : reject fast r w = (e, ms, w')) : ms.length ≤ n + 1 := by
+  have := reject_eq_len h; omega
+
+theorem rejectAll_len (fast : Bool) (rs : List Req) (w : WEnv) :
+    (rejectAll fast rs w).2.1.length ≤ rs.length := by
+  induction rs generalizing w with
+  | nil => simp [rejectAll]
+  | cons r rs ih =>
+    unfold rejectAll
+    rcases h : reject fast r w with ⟨e, ms, w'⟩
+    have h1 := reject_eq_len h
+    cases e
+    · simp only
+      rcases h2 : rejectAll fast rs w' with ⟨e2, ms2, w2⟩
+      have := ih w'
+      rw [h2] at this
+      simp only [List.length_append, List.length_cons] at this ⊢
+      omega
+    all_goals (simp only [List.length_cons]; omega)
+
+theorem unchokeCore_outlen (p : Peer) (num : Int) (u : Bool) (w : WEnv) (pre : String) :
+    (unchokeCore p num u w pre).msgs.length ≤ p.requested.length + 1 := by
+  unfold unchokeCore
+  split
+  · simp
+  · split
+    · split <;> simp
+    · split
+      · rename_i w' _
+        split
+        rename_i e ms w'' hr
+        have := rejectAll_len p.canFast p.requested w'
+        rw [hr] at this
+        simp only [List.length_cons] at this ⊢
+        omega
+      · simp
+
+/-- one handler invocation queues at most one message on the writer, except a choke, which
+    queues the Choke and one Reject per queued request -/
+theorem handle_outlen (st : Store) (p : Peer) (num : Int) (op : Op) :
+    (handle st p num op).msgs.length ≤ p.requested.length + 1 := by
+  have nil : ∀ (q : Peer) (n : Int) (e : Err) (t : String),
+      (mkRes q n [] e t).msgs.length ≤ p.requested.length + 1 := by
+    intro q n e t; simp [mkRes_msgs]
+  cases op with
+  | newPeer f i => exact nil _ _ _ _
+  | storeAdd k => exact nil _ _ _ _
+  | storeEvict k => exact nil _ _ _ _
+  | gotMeta k => simp only [handle, onMeta]; split <;> exact nil _ _ _ _
+  | exit k => simp only [handle, onExit]; split <;> simp [mkRes_msgs]
+  | unchoke k b w =>
+    have := unchokeCore_outlen p num (b && p.interested) w
+    simp only [handle, onPeerUnchoke, unchoke]
+    repeat' split
+    all_goals (rw [mkRes_msgs]; exact this _)
+  | tick k cong lim w =>
+    simp only [handle, onTick]
+    repeat' split
+    all_goals
+      first
+        | (simp [mkRes]; done)
+        | (simp only [mkRes]; apply reject_eq_len'; assumption)
+  | recv k m w =>
+    cases m with
+    | interested => exact nil _ _ _ _
+    | notInterested =>
+      have := unchokeCore_outlen { p with interested := false } num (false && false) w ""
+      simpa [handle, onNotInterested, unchoke, mkRes_msgs] using this
+    | cancel i b l =>
+      simp only [handle, onCancel]
+      repeat' split
+      all_goals
+        first
+          | (simp [mkRes_msgs]; done)
+          | (rw [mkRes_msgs]; apply reject_eq_len'; assumption)
+          | (rw [mkRes_msgs]; exact Nat.le_trans (reject_len _ _ _) (by omega))
+    | request i b l =>
+      simp only [handle, onRequest]
+      repeat' split
+      all_goals
+        first
+          | (simp [mkRes_msgs]; done)
+          | (rw [mkRes_msgs]; apply reject_eq_len'; assumption)
+          | (rw [mkRes_msgs]; exact Nat.le_trans (reject_len _ _ _) (by omega))
+    | _ => exact nil _ _ _ _
+
 end Storrent.Upload
